@@ -435,4 +435,75 @@ theorem mmLoop_run (E : Env) : ∀ (ds : List LangDesc) (s s' : St) (ms : List M
             simp only [mmCalls] at ih
             rw [ih]
 
+/-! ## small tools for the property theorems -/
+
+theorem AllPairs_imp {α β : Type} {R Q : α → β → Prop} : ∀ (as : List α) (bs : List β),
+    (∀ a b, a ∈ as → R a b → Q a b) → AllPairs R as bs → AllPairs Q as bs
+  | [], [], _, _ => True.intro
+  | [], _ :: _, _, h => h.elim
+  | _ :: _, [], _, h => h.elim
+  | a :: as, b :: bs, himp, h =>
+    ⟨himp a b (by simp) h.1, AllPairs_imp as bs (fun a' b' ha' => himp a' b' (List.mem_cons_of_mem _ ha')) h.2⟩
+
+theorem AllPairs_left {α β : Type} {R : α → β → Prop} : ∀ (as : List α) (bs : List β),
+    AllPairs R as bs → ∀ a, a ∈ as → ∃ b, R a b
+  | [], _, _, _, ha => by cases ha
+  | _ :: _, [], h, _, _ => h.elim
+  | a0 :: as, b0 :: bs, h, a, ha => by
+    rcases List.mem_cons.1 ha with e | e
+    · subst e; exact ⟨b0, h.1⟩
+    · exact AllPairs_left as bs h.2 a e
+
+theorem AllPairs_length {α β : Type} {R : α → β → Prop} : ∀ (as : List α) (bs : List β),
+    AllPairs R as bs → as.length = bs.length
+  | [], [], _ => rfl
+  | [], _ :: _, h => h.elim
+  | _ :: _, [], h => h.elim
+  | _ :: as, _ :: bs, h => by simp [AllPairs_length as bs h.2]
+
+theorem after_snoc (E : Env) (ops : List Op) (op : Op) :
+    after E (ops ++ [op]) = (step E (after E ops) op).1 := by
+  rw [after_snoc_cons]; rfl
+
+theorem Spec.metamodel_raise_kind (E : Env) (a : Spec) (n : String) (kw : Nat) (r : Res)
+    (h : (Spec.metamodel E a n kw).2 = .raise r) : r = .regError ∨ r = .typeError := by
+  unfold Spec.metamodel at h
+  simp only at h
+  split at h
+  · cases h
+  · split at h
+    · cases h; exact Or.inl rfl
+    · split at h
+      · cases h
+      · cases h
+      · cases h; exact Or.inl rfl
+      · cases h; exact Or.inr rfl
+
+theorem Spec.mmLoop_raise_kind (E : Env) : ∀ (ds : List LangDesc) (a : Spec) (r : Res),
+    (Spec.mmLoop E a ds).2 = .raise r → r = .regError ∨ r = .typeError
+  | [], a, r, h => by simp [Spec.mmLoop] at h
+  | d :: ds, a, r, h => by
+    unfold Spec.mmLoop at h
+    cases hr : Spec.metamodel E a d.name 0 with
+    | mk a1 o1 =>
+      have h1 := Spec.metamodel_raise_kind E a d.name 0
+      rw [hr] at h h1
+      simp only at h h1
+      cases o1 with
+      | raise r1 =>
+        simp only [Out.raise.injEq] at h
+        subst h; exact h1 r1 rfl
+      | ok m =>
+        simp only at h
+        cases hr2 : Spec.mmLoop E a1 ds with
+        | mk a2 o2 =>
+          have h2 := Spec.mmLoop_raise_kind E ds a1
+          rw [hr2] at h h2
+          simp only at h h2
+          cases o2 with
+          | raise r2 =>
+            simp only [Out.raise.injEq] at h
+            subst h; exact h2 r2 rfl
+          | ok ms => cases h
+
 end Reg
